@@ -14,26 +14,32 @@ ENDBLOCK_FORMULAS = dict(
                   "P_C07_SetRequest", "P_C07_SetsOnlyByTick", "P_C07_Pruning", "P_C07_GovResolved"])
 
 STAKES = {"Stake2": {"o1": 4, "o2": 1}, "Stake3": {"o1": 5, "o2": 4, "o3": 1}, "StakeEq": {"o1": 1, "o2": 1, "o3": 1},
-          "StakeBig": {"o1": 500, "o2": 300, "o3": 225}}
+          "StakeBig": {"o1": 500, "o2": 300, "o3": 225},
+          "StakeSub": {"o1": 40, "o2": 8, "o3": 6}}   # tenths of a power unit (Unit = 10): o2, o3 have power 0
 O1, O2, O3 = ["o1"], ["o1", "o2"], ["o1", "o2", "o3"]
 GOVKINDS = ["dep", "YY", "NN", "NY", "VV", "AA", "-A", "AY", "--", "W", "bad", "exp"]   # vote patterns of the two validators, see EndBlock.tla
 GOVFEW = ["dep", "YY", "AA", "exp"]
 DEP, VOT, EXP = 2, 3, 1   # gov periods in blocks
 
 
-def consts(oracles, *, w=2, kinds=(), sets=2, batch=0, call=0, obs=(), ticks=(1,), removable=(), propkind=(), props=0, adds=(), maxadds=0):
-    return dict(Oracle=oracles, AddSizes=list(adds), MaxAdds=maxadds, W=w, Kinds=list(kinds), MaxSets=sets, MaxBatch=batch, MaxCall=call, ObsSets=list(obs),
+def consts(oracles, *, w=2, kinds=(), sets=2, batch=0, call=0, obs=(), ticks=(1,), removable=(), propkind=(), props=0, adds=(), maxadds=0,
+           unit=1, thr0=None, thrs=(), multiple=1000):
+    """unit: stake units per power unit (Stake / AddSizes / thresholds are in stake units); thr0: initial delegate threshold
+    (default one power unit); thrs: thresholds governance may set; multiple: DelegateMultiple"""
+    return dict(Oracle=oracles, Unit=unit, Threshold0=unit if thr0 is None else thr0, Thresholds=list(thrs), Multiple=multiple,
+                AddSizes=list(adds), MaxAdds=maxadds, W=w, Kinds=list(kinds), MaxSets=sets, MaxBatch=batch, MaxCall=call, ObsSets=list(obs),
                 Ticks=list(ticks), Removable=list(removable), PropKind=list(propkind), MaxProps=props,
                 DepositBlocks=DEP, VotingBlocks=VOT, ExpBlocks=EXP)
 
 
-def harness(chain, oracles, stake, w=2):
-    return dict(chain=chain, Oracle=oracles, Stake=STAKES[stake], W=w, DepositBlocks=DEP, VotingBlocks=VOT, ExpBlocks=EXP)
+def harness(chain, oracles, stake, w=2, unit=1, thr0=1, multiple=1000):
+    return dict(chain=chain, Oracle=oracles, Stake=STAKES[stake], W=w, Unit=unit, Threshold0=thr0, Multiple=multiple,
+                DepositBlocks=DEP, VotingBlocks=VOT, ExpBlocks=EXP)
 
 
 def cfg(name, tiers, c, stake, chains, **kw):
     d = dict(name=name, tiers=tiers, consts=c, overrides={"Stake": stake},
-             harness=[harness(ch, c["Oracle"], stake, c["W"]) for ch in chains], shards=kw.pop("shards", 14),
+             harness=[harness(ch, c["Oracle"], stake, c["W"], c["Unit"], c["Threshold0"], c["Multiple"]) for ch in chains], shards=kw.pop("shards", 14),
              rej_sample=kw.pop("rej_sample", 0))
     d.update(kw)
     return d
@@ -49,6 +55,12 @@ C_GOV2 = consts(O1, sets=1, propkind=GOVFEW, props=2)                           
 # powers by 0.094% (o1) / 0.156% (o2), +120 on o1 by 9.78%, +126 by 10.2% (oracle-set request threshold 10%)
 C_STAKE = consts(O2, sets=2, adds=[1, 120, 126], maxadds=1)
 C_STAKE2 = consts(O2, sets=2, adds=[1, 120, 126], maxadds=2)
+# stakes below one power unit: stake unit = 1/10 power unit, o1 stakes 40 (4 power units), o2 8 (power 0; it can bond
+# only once governance has lowered the delegate threshold from 10 to 1); +2 lifts o2 to one power unit, is too much for
+# o1 while the threshold is 1 (maximum 1 * 41) and does not change o1's power otherwise (and is below the 80% penalty a
+# slashed oracle would have to pay first: see ASSUMPTIONS).  States in which every online oracle has power 0 (no oracle
+# set can be formed) are reached by bonding o2 alone and by o1 being slashed while o2 (bonded later) stays online.
+C_SUB = consts(O2, unit=10, thr0=10, thrs=[1, 10], multiple=41, sets=2, adds=[2], maxadds=1, removable=["o2"])
 C_DEV = consts(O2, kinds=["call"], sets=1, call=1)
 # thorough only
 C_BOTH = consts(O2, kinds=["batch", "call"], sets=2, batch=1, call=1, removable=["o2"])   # all three object kinds together
@@ -59,12 +71,15 @@ C_W3 = consts(O2, w=3, kinds=["call"], sets=2, call=1, removable=["o2"], ticks=(
 C_GOVALL2 = consts(O1, sets=1, propkind=GOVKINDS, props=2)
 C_GOV3 = consts(O1, sets=1, propkind=GOVFEW + ["bad", "NN"], props=3)
 C_STAKE3 = consts(O3, sets=2, adds=[1, 30], maxadds=1)
+C_SUB3 = consts(O3, unit=10, thr0=10, thrs=[1], multiple=41, sets=2, adds=[2], maxadds=1)   # one regular oracle, two below one power unit
 
 Q, T, QT = ["quick"], ["thorough"], ["quick", "thorough"]
 ENDBLOCK_MC = [
     dict(name="mcdev", tiers=["dev"], consts=C_DEV, overrides={"Stake": "Stake2"}),
     dict(name="mcdevgov", tiers=["dev"], consts=C_GOV, overrides={"Stake": "Stake2"}),
     dict(name="mcdevstake", tiers=["dev"], consts=C_STAKE, overrides={"Stake": "StakeBig"}),
+    dict(name="mcdevsub", tiers=["dev"], consts=C_SUB, overrides={"Stake": "StakeSub"}),
+    dict(name="mcsub", tiers=QT, consts=C_SUB, overrides={"Stake": "StakeSub"}),
     dict(name="mccall", tiers=QT, consts=C_CALL, overrides={"Stake": "Stake2"}),
     dict(name="mcbatch", tiers=QT, consts=C_BATCH, overrides={"Stake": "Stake2"}),
     dict(name="mcprune", tiers=QT, consts=C_PRUNE, overrides={"Stake": "Stake2"}),
@@ -74,6 +89,7 @@ ENDBLOCK_MC = [
     dict(name="mcgovall2", tiers=T, consts=C_GOVALL2, overrides={"Stake": "Stake2"}),
     dict(name="mcstake2", tiers=T, consts=C_STAKE2, overrides={"Stake": "StakeBig"}),
     dict(name="mcstake3", tiers=T, consts=C_STAKE3, overrides={"Stake": "StakeBig"}),
+    dict(name="mcsub3", tiers=T, consts=C_SUB3, overrides={"Stake": "StakeSub"}),
     dict(name="mcboth", tiers=T, consts=C_BOTH, overrides={"Stake": "Stake2"}),
     dict(name="mcthree", tiers=T, consts=C_THREE, overrides={"Stake": "Stake3"}),
     dict(name="mccall2", tiers=T, consts=C_CALL2, overrides={"Stake": "Stake2"}),
@@ -86,6 +102,7 @@ ENDBLOCK_GEN = [
     cfg("gendev", ["dev"], C_DEV, "Stake2", ["eth"], shards=8),
     cfg("gendevgov", ["dev"], C_GOV, "Stake2", ["eth"], shards=8),
     cfg("gendevstake", ["dev"], C_STAKE, "StakeBig", ["eth"], shards=8),
+    cfg("gendevsub", ["dev"], C_SUB, "StakeSub", ["eth"], shards=8),
     # quick: eth, rejected operations sampled
     cfg("gencall", Q, C_CALL, "Stake2", ["eth"], rej_sample=3),
     cfg("genbatch", Q, C_BATCH, "Stake2", ["eth"], rej_sample=3),
@@ -93,6 +110,7 @@ ENDBLOCK_GEN = [
     cfg("gengov", Q, C_GOV, "Stake2", ["eth"], rej_sample=3),
     cfg("gengov2", Q, C_GOV2, "Stake2", ["eth"], rej_sample=3),
     cfg("genstake", Q, C_STAKE, "StakeBig", ["eth"], rej_sample=3),
+    cfg("gensub", Q, C_SUB, "StakeSub", ["eth"], rej_sample=3),
     # thorough: the same graphs with every rejected operation, on three chain modules (tron: own address format,
     # signature prefix and checkpoint encoders), plus the larger configurations (two batches and three proposals are
     # model-checked only: mcbatch2, mcgov3)
@@ -102,6 +120,8 @@ ENDBLOCK_GEN = [
     cfg("gengovT", T, C_GOVALL2, "Stake2", ["eth"], rej_sample=2),
     cfg("genstakeT", T, C_STAKE2, "StakeBig", ["eth", "tron"], rej_sample=3),
     cfg("genstake3", T, C_STAKE3, "StakeBig", ["bsc"], rej_sample=1),
+    cfg("gensubT", T, C_SUB, "StakeSub", ALL3),
+    cfg("gensub3", T, C_SUB3, "StakeSub", ["tron"], rej_sample=2),
     cfg("genboth", T, C_BOTH, "Stake2", ["eth"], rej_sample=2),
     cfg("genthree", T, C_THREE, "Stake3", ["tron"], rej_sample=1),
     cfg("gencall2", T, C_CALL2, "Stake2", ["bsc"], rej_sample=2),
@@ -112,6 +132,7 @@ ASSUMPTIONS = [
     "heights are relative: the abstraction reports min(currentHeight - creationHeight, W+1) per object and 'joined at or before the object' per (oracle, object); the code only compares height differences",
     "SignedWindow is set to 2 (its minimum) by the real MsgUpdateParams so that objects age beyond the window within a few real end-blockers; gov periods are 2/3/1 blocks, quorum 60% (so that one of the two validators alone is below quorum)",
     "normalised oracle-set powers are compared at 20 bits (store value / 4096); stake additions are chosen >= 10^-3 away from the 10% update threshold",
+    "stakes are whole numbers of stake units (1 power unit = 100 FX = Unit stake units; Unit = 10 in the sub-unit configurations, where governance moves DelegateThreshold between 1 power unit and 1/10 power unit by the real MsgUpdateParams and DelegateMultiple is 41); stake additions are smaller than the 80% penalty of the oracle that makes them",
     "an observed oracle-set update is applied at keeper level (UpdateOracleSetExecuted, what an observed MsgOracleSetUpdatedClaim executes); the FX bridge token and the observed external height are set at keeper level; claim attestation is Attest.tla's subject",
     "batches are never executed/cancelled and bridge calls never answered in this model (their deletion happens in claim handling, not at block end); slashed/removed oracles do not come back online (MsgAddDelegate is used by online oracles only: a slashed one would have to pay 80% of its stake first) and do not unbond",
     "graph replay calls the application's real EndBlocker / PreBlocker / BeginBlocker on branches of the multistore; TestBlocks replays sampled paths through real FinalizeBlock+Commit and compares",
@@ -201,7 +222,7 @@ specs.REGISTRY["C07"] = run
 specs.MANIFEST.update({
  "C07": dict(category="model_checking",
              technique="TLA+ spec EndBlock.tla: TLC exhaustive model check + replay of every TLC-generated transition (incl. Tick = the application's real EndBlocker/BeginBlocker) on the real application + sampled paths through real FinalizeBlock+Commit + TLC evaluation of the C07 formulas on recorded real behaviours",
-             text="EndBlock.tla models the end-of-block logic of one bridge module (slashing of oracle sets / batches / outgoing bridge calls with their three cursors and the start-height exemption, the oracle-set request rule, pruning) and the gov end-blocker; Tick is a total action without error outcome. TLC checks the C07 formulas on all interleavings of bonding, governance removal, object creation, confirmations (real secp256k1 signatures), observed set updates, proposals and block ends; every generated transition is executed on branches of the real multistore with the application's real EndBlocker/BeginBlocker (panics and errors are the violation), the projected state compared after each step; the formulas are then evaluated by TLC on the recorded real behaviours.",
-             note="bounded: 1-3 oracles, <=3 oracle sets, <=2 batches/bridge calls, <=2 proposals, SignedWindow 2 (3 in thorough); eth (thorough: tron, bsc); objects are not executed/cancelled; oracles do not re-activate; trusted: TLC, the abstraction function (raw store reads), branch emulation of block boundaries (cross-checked against real FinalizeBlock+Commit on sampled paths)",
+             text="EndBlock.tla models the end-of-block logic of one bridge module (slashing of oracle sets / batches / outgoing bridge calls with their three cursors and the start-height exemption, the oracle-set request rule, pruning) and the gov end-blocker; Tick is a total action without error outcome. TLC checks the C07 formulas on all interleavings of bonding (including stakes below one power unit, i.e. online oracles with power 0, after governance lowered the delegate threshold), stake additions, governance removal, object creation, confirmations (real secp256k1 signatures), observed set updates, proposals and block ends; every generated transition is executed on branches of the real multistore with the application's real EndBlocker/BeginBlocker (panics and errors are the violation), the projected state compared after each step; the formulas are then evaluated by TLC on the recorded real behaviours.",
+             note="bounded: 1-3 oracles, stakes of 0.6-500 power units, <=3 oracle sets, <=2 batches/bridge calls, <=2 proposals, SignedWindow 2 (3 in thorough); eth (thorough: tron, bsc); objects are not executed/cancelled; oracles do not re-activate; trusted: TLC, the abstraction function (raw store reads), branch emulation of block boundaries (cross-checked against real FinalizeBlock+Commit on sampled paths)",
              ref="5 (C07)"),
 })
